@@ -117,7 +117,17 @@ func pkColumns(schema *sdb.Schema, ind *sdb.SchemaIndex) []int {
 
 	var res []int
 	for _, c := range schema.PK {
-		if in := ind.Column(c.Column); in < 0 {
+		// SQLite reuses an index column for the key only if it is the same
+		// column with the same collation. Otherwise the key column is stored
+		// again, after the index columns.
+		in := -1
+		for i, ic := range ind.Columns {
+			if strings.EqualFold(ic.Column, c.Column) && sameCollation(ic.Collate, c.Collate) {
+				in = i
+				break
+			}
+		}
+		if in < 0 {
 			ind.Columns = append(ind.Columns, c)
 			res = append(res, len(ind.Columns)-1)
 		} else {
@@ -125,4 +135,15 @@ func pkColumns(schema *sdb.Schema, ind *sdb.SchemaIndex) []int {
 		}
 	}
 	return res
+}
+
+// sameCollation compares collation names; no name means BINARY.
+func sameCollation(a, b string) bool {
+	if a == "" {
+		a = "binary"
+	}
+	if b == "" {
+		b = "binary"
+	}
+	return strings.EqualFold(a, b)
 }
